@@ -256,3 +256,8 @@ fn c09_block_scope_twin() {
     assert!(unsafe { STMT_ORDER_OK });
     assert!(unsafe { DEPTH } == 0);
 }
+
+// A twin of the Stmt::Block arm (compile_statement on `{}` / `{ ja }`, everything real) was tried after seeded change
+// C11-8 and does NOT finish: calling the real compile_statement makes CBMC unwind the whole recursive generator
+// (> 20 min for two concrete inputs). The arm stays with its Verus contract (O12.4); a change that removes the
+// statements its ghost hints are anchored on is reported as UNDECIDED.
